@@ -1,6 +1,7 @@
 package main
 
 func init() {
+	reg("C05", propCfg{Pkg: "props", Quick: tierCfg{12, 8}, Thorough: tierCfg{14, 100}})
 	reg("C04", propCfg{Pkg: "props", Quick: tierCfg{12, 10}, Thorough: tierCfg{14, 150}})
 	reg("C16", propCfg{Pkg: "props", Quick: tierCfg{8, 700}, Thorough: tierCfg{14, 30000}})
 	reg("C08", propCfg{Pkg: "props", Quick: tierCfg{8, 700}, Thorough: tierCfg{14, 30000}})
